@@ -440,3 +440,152 @@ def gen_lifecycle(rng):
                 ops.append("zc%d.%d" % (zobj, scope_body))
         bodies.append(";".join(ops) if ops else "-")
     return "prog %s %s %d %s %s" % (gen_ms(rng) if rng.random() < 0.15 else "none", gen_script(rng), rng.getrandbits(32), ",".join(objl), "|".join(bodies))
+
+
+# ---------------- focused streams: one primitive, many operations ----------------
+def gen_focus(rng, kind):
+    """Programs that use one primitive intensively: main spawns every other body first (body j becomes task j), then all
+    bodies run 3-8 operations drawn from the primitive's own vocabulary, then main joins some of its children.
+    kinds: park, condvar, barrier, mutex, rwlock, sem, atomic, chan."""
+    nb = rng.randint(2, 4)
+    head = ["sp%d" % j for j in range(1, nb)]
+    tail = ["jn%d" % h for h in range(nb - 1) if rng.random() < 0.6]
+    bodies = []
+    if kind == "park":
+        objs = "a0,m"
+        for b in range(nb):
+            ops = []
+            for _ in range(rng.randint(2, 8)):
+                r = rng.random()
+                if r < 0.30:
+                    ops.append("pk")
+                elif r < 0.40:
+                    ops.append("lk1;yd;ul1")      # blocked on something other than park while an unpark arrives
+                elif r < 0.70:
+                    t = rng.randrange(nb)
+                    ops.append(("uh%d" % (t - 1)) if (b == 0 and t >= 1 and rng.random() < 0.5) else ("ut%d" % t))
+                elif r < 0.85:
+                    ops.append("yd")
+                else:
+                    ops.append("a0.add.1")
+            bodies.append(ops)
+    elif kind == "condvar":
+        objs = "a0,m,v"
+        for b in range(nb):
+            ops = []
+            for _ in range(rng.randint(2, 6)):
+                r = rng.random()
+                if r < 0.35:
+                    ops.append("lk1;cw2.1;ul1")
+                elif r < 0.65:
+                    ops.append("cn2")
+                elif r < 0.75:
+                    ops.append("ca2")
+                elif r < 0.85:
+                    ops.append("lk1;cn2;ul1")
+                else:
+                    ops.append("yd")
+            bodies.append(ops)
+    elif kind == "barrier":
+        objs = "a0,b%d" % rng.choice([2, 2, 3])
+        for b in range(nb):
+            bodies.append([rng.choice(["bw1", "bw1", "yd", "a0.add.1"]) for _ in range(rng.randint(1, 6))])
+    elif kind == "mutex":
+        objs = "a0,m,m"
+        for b in range(nb):
+            ops = []
+            held = []
+            for _ in range(rng.randint(2, 7)):
+                r = rng.random()
+                free = [m for m in (1, 2) if m not in held]
+                if r < 0.35 and free:
+                    m = rng.choice(free)
+                    ops.append("lk%d" % m)
+                    held.append(m)
+                elif r < 0.6 and held:
+                    m = held.pop(rng.randrange(len(held)))
+                    ops.append("ul%d" % m)
+                elif r < 0.75 and not held:
+                    m = rng.choice((1, 2))
+                    ops.append("tl%d;a0.add.1" % m)     # the guard, if any, is dropped at the end of the body
+                    held.append(None)
+                    break
+                elif r < 0.9:
+                    ops.append("a0.add.%d" % rng.randrange(1, 4))
+                else:
+                    ops.append("yd")
+            bodies.append(ops)
+    elif kind == "rwlock":
+        objs = "a0,w,w"
+        for b in range(nb):
+            ops = []
+            held = []
+            for _ in range(rng.randint(2, 7)):
+                r = rng.random()
+                free = [m for m in (1, 2) if m not in held]
+                if r < 0.4 and free:
+                    m = rng.choice(free)
+                    ops.append("%s%d" % (rng.choice(["rd", "rd", "wr"]), m))
+                    held.append(m)
+                elif r < 0.65 and held:
+                    m = held.pop(rng.randrange(len(held)))
+                    ops.append("ru%d" % m)
+                elif r < 0.78 and not held:
+                    ops.append("%s%d;a0.ld" % (rng.choice(["tr", "tw"]), rng.choice((1, 2))))
+                    break
+                elif r < 0.9:
+                    ops.append("a0.add.1")
+                else:
+                    ops.append("yd")
+            bodies.append(ops)
+    elif kind == "sem":
+        objs = "a0,s%d:%s,s%d:%s" % (rng.choice([0, 1, 2, 3]), rng.choice("fu"), rng.choice([1, 2]), rng.choice("fu"))
+        for b in range(nb):
+            ops = []
+            for _ in range(rng.randint(2, 7)):
+                r = rng.random()
+                o = rng.choice((1, 2))
+                if r < 0.3:
+                    ops.append("sa%d.%d" % (o, rng.choice([1, 1, 2, 3])))
+                elif r < 0.45:
+                    ops.append("st%d.%d" % (o, rng.choice([1, 1, 2, 3])))
+                elif r < 0.75:
+                    ops.append("sr%d.%d" % (o, rng.choice([1, 1, 2])))
+                elif r < 0.8:
+                    ops.append("sc%d" % o)
+                elif r < 0.9:
+                    ops.append("sv%d" % o)
+                else:
+                    ops.append("yd")
+            bodies.append(ops)
+    elif kind == "atomic":
+        objs = "a%d,a%d" % (rng.choice([0, 1, 5]), rng.choice([0, 2 ** 64 - 1]))
+        for b in range(nb):
+            bodies.append([gen_atomic_op(rng, 2) if rng.random() < 0.85 else "yd" for _ in range(rng.randint(2, 7))])
+    else:   # chan
+        nb = rng.randint(2, 3)
+        head = ["sp%d" % j for j in range(1, nb)]
+        tail = ["jn%d" % h for h in range(nb - 1) if rng.random() < 0.6]
+        objs = "a0,c%s,e" % rng.choice(["0", "0", "1", "1", "2", "u"])
+        rx = rng.randrange(nb)
+        for b in range(nb):
+            ops = []
+            alive_tx = True
+            for _ in range(rng.randint(2, 7)):
+                r = rng.random()
+                if b == rx and r < 0.55:
+                    ops.append(rng.choice(["rc1", "rc1", "tc1"]))
+                elif r < 0.85 and alive_tx:
+                    k = rng.choice(["sd", "sd", "sd", "ts", "ts", "dt"])
+                    if k == "dt":
+                        ops.append("dt1.%d" % b)
+                        alive_tx = False
+                    else:
+                        ops.append("%s1.%d.%d" % (k, b, rng.randrange(1, 100)))
+                else:
+                    ops.append("yd")
+            if b == rx and rng.random() < 0.35:
+                ops.append("dr1")
+            bodies.append(ops)
+    bodies[0] = head + bodies[0] + tail
+    return "prog none %s %d %s %s" % (gen_script(rng), rng.getrandbits(32), objs, "|".join(";".join(o) if o else "-" for o in bodies))
